@@ -156,6 +156,7 @@ type interpreter struct {
 	knownOn    map[string]bool // known-finding ids enabled for this run
 	lenient    int
 	nasserts   int
+	allocLimit int64 // vstub.AllocLimit: symbolic allocations above it are violations
 	params     map[string]int
 	nchans     int
 	wgThreads  sync.WaitGroup
